@@ -1,4 +1,5 @@
 import Amgcl.Proofs.DistAmgIndep
+import Amgcl.Proofs.DistAmgInit
 import Amgcl.Properties.C12
 import Amgcl.Properties.C06
 /-!
@@ -28,6 +29,13 @@ consolidated system, scatter).
   consolidated matrix, concatenated smoother vectors) on the gathered input — `x` and all level vectors.
 * `dist_apply_scratch_indep` — C02's independence of the level vectors (hence of earlier applications) transferred:
   the distributed preconditioner is ONE function of `rhs` over a whole Krylov run.
+* `dinit_output_ok`, `dinit_given_ok`, `dinit_cycle_eq_gathered` — the hierarchy CONSTRUCTOR `DistAmg.dinit`
+  (`mpi::amg::init`, level constructor, `step_down` without repartitioning; the function `h_mpi_cycle` compares with
+  the real constructor) returns hierarchies that satisfy `DHierOK` and `DHierFull`, for every well-formed input matrix
+  and every coarsening policy whose operators are well formed and chain (`PolicyOK`); the policy of GIVEN transfer
+  operators with the Galerkin product `R·(A·P)` through `mpi::product` is such a policy (`distOK_product`: `mpi::product`
+  returns well-formed blocks), so the cycle theorems apply to what the model constructor builds without assuming
+  anything about its output.
 * `mpi_amg_setup` — hence `mpi::amg` satisfies the hypothesis `Setup.pd` of `C12.lockstep_refines_serial`
   (`lockstep_cg_mpi_amg`: distributed CG preconditioned with distributed AMG = serial CG with serial AMG).
 
@@ -231,17 +239,73 @@ theorem lockstep_cg_mpi_amg {S T : Type} (aprm : Amg.Params) (dsm : DSmoother K 
                         Pd := fun g => (dapply aprm dsm direct (d :: dls) dscr g).1 }
     let P : Vec K → Vec K :=
       fun g => (Amg.apply aprm sm direct (gatherLevels gs (d :: dls)) (dscr.map gatherScratch) g).1
-    ∃ ds', drun C prm.maxiter (Lockstep.CG.prog prm sqrt eps) (distribute d.part (Lockstep.CG.initState ws f x0)) = some ds' ∧
+    ∃ ds', drun C (Lockstep.CG.prog prm sqrt eps) (distribute d.part (Lockstep.CG.initState ws f x0)) = some ds' ∧
       ds'.vec Lockstep.CG.vX
         = splitVec (Solver.CG.run prm (innerProductSerial conj) sqrt eps (assemble dA d.part) P ws f x0).x d.part ∧
       ∃ (n : Nat) (res : K),
         (Solver.CG.run prm (innerProductSerial conj) sqrt eps (assemble dA d.part) P ws f x0).out = .ok (n, res) ∧
         ∀ r, r < d.part.length →
-          renv ds'.scal r Lockstep.CG.sOut = res ∧ renv ds'.scal r Lockstep.CG.sCnt = (n : K) :=
+          ds'.scal r Lockstep.CG.sOut = res ∧ ds'.scal r Lockstep.CG.sCnt = (n : K) :=
   lockstep_cg_refines_serial _ _ _ (mpi_amg_setup aprm dsm sm gs direct hsm d dls hOK dA hdA hnp dscr hscr conj)
     prm sqrt eps ws f x0 hf hx hr hs hp hq
 
 end cg
+
+/-! ## the hierarchy constructor -/
+section constructor
+variable {K S T : Type} [Field K] [DecidableEq K]
+
+/-- **`dinit_output_ok`.**  Whatever `DistAmg.dinit` (`mpi::amg::init` without repartitioning) returns — for every
+well-formed distributed input matrix (rows and columns partitioned alike, empty ranks allowed), every coarsening policy
+that is `PolicyOK` (well-formed `P`, `R`, `A_c` whose partitions chain, no empty coarse level, on the level inputs
+`Good` it is meant for), every distributed smoother and every serial coarse solver returning vectors of the size of its
+right-hand side — is a hierarchy that satisfies `DHierOK` and `DHierFull`, the hypotheses of
+`dist_amg_cycle_eq_gathered` / `dist_amg_apply_eq_gathered` / `dist_apply_scratch_indep` / `mpi_amg_setup`. -/
+theorem dinit_output_ok (prm : Amg.Params) (pol : DPolicy K) (dsm : DSmoother K S) (directOk : CRS K → Bool)
+    (direct : CRS K → Vec K → Vec K) (Good : Nat → List (DistMat K) → List Nat → Prop)
+    (hpol : PolicyOK pol Good prm.coarse_enough) (hdir : ∀ M f, (direct M f).size = f.size)
+    (A : List (DistMat K)) (part : List Nat) (hA : DistOK A part part) (hG : Good 0 (distSortRows A) part)
+    (dls : List (DLevel K S)) (h : dinit prm pol dsm directOk A part = .ok dls) :
+    DHierOK dsm direct dls ∧ DHierFull dls :=
+  dinit_ok prm pol dsm directOk direct Good hpol hdir A part hA hG dls h
+
+/-- **`dinit_given_ok`**: the constructor run on GIVEN transfer operators `trs[l] = (P_l, R_l)` (distributed by
+`parts[l]`, `parts[l+1]`) with the Galerkin coarse operator `R·(A·P)` computed by `mpi::product` — the configuration of
+`h_mpi_cycle` — returns a `DHierOK`, `DHierFull` hierarchy whenever the shapes of the given operators chain, no given
+coarse level is empty and every level with more than `coarse_enough` rows has its operators. -/
+theorem dinit_given_ok (prm : Amg.Params) (trs : List (CRS K × CRS K)) (parts : List (List Nat))
+    (dsm : DSmoother K S) (directOk : CRS K → Bool) (direct : CRS K → Vec K → Vec K)
+    (hshape : ∀ l P R, trs[l]? = some (P, R) →
+      PartOK P (parts.getD l []) (parts.getD (l + 1) []) ∧ PartOK R (parts.getD (l + 1) []) (parts.getD l []) ∧
+      (parts.getD (l + 1) []).sum ≠ 0)
+    (hlast : ∀ l, prm.coarse_enough < (parts.getD l []).sum → l < trs.length)
+    (hdir : ∀ M f, (direct M f).size = f.size) (A : CRS K) (hA : PartOK A (parts.getD 0 []) (parts.getD 0 []))
+    (dls : List (DLevel K S))
+    (h : dinit prm (givenPolicy trs parts) dsm directOk (split A (parts.getD 0 []) (parts.getD 0 [])) (parts.getD 0 [])
+      = .ok dls) :
+    DHierOK dsm direct dls ∧ DHierFull dls :=
+  dinit_ok prm _ dsm directOk direct _ (givenPolicy_ok trs parts prm.coarse_enough hshape hlast) hdir _ _
+    (distOK_split _ _ _ hA) rfl dls h
+
+/-- **`dinit_cycle_eq_gathered`**: `dist_amg_cycle_eq_gathered` for the hierarchies the model constructor builds, with
+no hypothesis on the hierarchy left. -/
+theorem dinit_cycle_eq_gathered (prm : Amg.Params) (pol : DPolicy K) (dsm : DSmoother K S) (sm : Relax.Smoother K T)
+    (gs : List S → T) (directOk : CRS K → Bool) (direct : CRS K → Vec K → Vec K)
+    (Good : Nat → List (DistMat K) → List Nat → Prop) (hpol : PolicyOK pol Good prm.coarse_enough)
+    (hdir : ∀ M f, (direct M f).size = f.size) (hsm : SmootherRef dsm sm gs)
+    (A : List (DistMat K)) (part : List Nat) (hA : DistOK A part part) (hG : Good 0 (distSortRows A) part)
+    (dls : List (DLevel K S)) (h : dinit prm pol dsm directOk A part = .ok dls)
+    (dscr : List (DScratch K)) (drhs dx : DVec K) (hscr : DScrsOK (dls.map (·.part)) dscr)
+    (hrhs : DVecOK (nextPart dls) drhs) (hx : DVecOK (nextPart dls) dx) :
+    concatVec (dcycle prm dsm direct dls dscr drhs dx).1
+      = (Amg.cycle prm sm direct (gatherLevels gs dls) (dscr.map gatherScratch) (concatVec drhs) (concatVec dx)).1 := by
+  obtain ⟨hOK, hF⟩ := dinit_ok prm pol dsm directOk direct Good hpol hdir A part hA hG dls h
+  cases dls with
+  | nil => exact hF.elim
+  | cons d rest =>
+    exact (dist_amg_cycle_eq_gathered prm dsm sm gs direct hsm d rest hOK dscr drhs dx hscr hrhs hx).1
+
+end constructor
 
 /-! ## non-vacuity: a two-level hierarchy on 3 ranks, a different rank empty on each level -/
 
@@ -347,5 +411,45 @@ example (junk : List (DScratch Rat)) (hj : DScrsOK ([mgL0, mgL1r].map (·.part))
       exact C06.jacobi_affine_scratch_indep (2 / 3 : Rat) s A hs)
     mgL0 [mgL1r] mg_ok_r ⟨rfl, rfl, rfl, rfl, Or.inr ⟨rfl, rfl, rfl⟩⟩ (by intro Ad h; simp [gatherLevels, mgL0, mgL1r] at h)
     _ _ _ (dscrsOK_fresh [mgL0, mgL1r]) hj (dvecOK_split _ _ (by decide))
+
+/-- a coarse solver that returns vectors of the size of its right-hand side (Cramer on 2×2 systems) -/
+def mgDirectS (A : CRS Rat) (f : Vec Rat) : Vec Rat := if f.size = 2 then mgDirect A f else f
+
+theorem mgDirectS_size (A : CRS Rat) (f : Vec Rat) : (mgDirectS A f).size = f.size := by
+  unfold mgDirectS
+  split
+  · next h => rw [h]; rfl
+  · rfl
+
+/-- `dinit_given_ok` instantiated: the model constructor run on the 1-D Laplacian on 3 ranks (rank 1 empty) with the
+given pairwise-aggregation operators distributed so that rank 0 is empty on the coarse level builds a 2-level hierarchy
+(Galerkin product through `mpi::product`, direct coarse solver) that is `DHierOK` and `DHierFull` -/
+example : ∃ dls, dinit mgPrm (givenPolicy [(mgP0, mgR0)] [mgP, mgQ]) (distJacobi (2 / 3 : Rat)) (fun _ => true)
+      (split mgA0 mgP mgP) mgP = .ok dls ∧ dls.length = 2 ∧
+    DHierOK (distJacobi (2 / 3 : Rat)) mgDirectS dls ∧ DHierFull dls := by
+  have h2 : (match dinit mgPrm (givenPolicy [(mgP0, mgR0)] [mgP, mgQ]) (distJacobi (2 / 3 : Rat)) (fun _ => true)
+      (split mgA0 mgP mgP) mgP with
+    | .ok l => decide (l.length = 2)
+    | .error _ => false) = true := by decide +kernel
+  cases hd : dinit mgPrm (givenPolicy [(mgP0, mgR0)] [mgP, mgQ]) (distJacobi (2 / 3 : Rat)) (fun _ => true)
+      (split mgA0 mgP mgP) mgP with
+  | error e => rw [hd] at h2; cases h2
+  | ok dls =>
+    rw [hd] at h2
+    refine ⟨dls, rfl, by simpa using h2, ?_⟩
+    refine dinit_given_ok mgPrm [(mgP0, mgR0)] [mgP, mgQ] _ (fun _ => true) mgDirectS ?_ ?_ mgDirectS_size mgA0
+      ⟨by decide, rfl, by decide, by decide⟩ dls hd
+    · intro l P R h
+      match l, h with
+      | 0, h =>
+        simp only [List.getElem?_cons_zero, Option.some.injEq, Prod.mk.injEq] at h
+        obtain ⟨rfl, rfl⟩ := h
+        exact ⟨⟨by decide, rfl, by decide, by decide⟩, ⟨by decide, rfl, by decide, by decide⟩, by decide⟩
+      | l + 1, h => simp at h
+    · intro l h
+      match l, h with
+      | 0, _ => decide
+      | 1, h => exact absurd h (by decide)
+      | l + 2, h => simp [mgPrm] at h
 
 end Amgcl.C12
